@@ -40,6 +40,13 @@ func emitters(p *progen.Prog) int {
 	return p.Par.Emitters
 }
 
+func emitSlice(p *progen.Prog) bool {
+	if p.Flow != nil {
+		return p.Flow.EmitSlice
+	}
+	return p.Par.EmitSlice
+}
+
 func eligible(prop string, p *progen.Prog) bool {
 	switch prop {
 	case "C02":
@@ -55,11 +62,11 @@ func eligible(prop string, p *progen.Prog) bool {
 	case "C18":
 		return emitters(p) > 0
 	case "C19":
-		return emitters(p) > 0
+		return emitters(p) > 0 && !emitSlice(p) // routing emitters cannot attribute state reports (they carry no context)
 	case "C03scale":
 		return p.Par != nil && len(p.Par.Colls) > 0
 	case "C10scale", "C10scale8", "C19scale":
-		if p.Par == nil || (prop == "C19scale" && p.Par.Emitters == 0) {
+		if p.Par == nil || (prop == "C19scale" && (p.Par.Emitters == 0 || p.Par.EmitSlice)) {
 			return false
 		}
 		for _, c := range p.Par.Colls {
@@ -519,7 +526,7 @@ func generateScale(rng *rand.Rand, prop, tier string, gmp int, progs []int) *Des
 		case prop == "C10scale8":
 			n = 257 + rng.Intn(600)
 		case (prop == "C10scale" || prop == "C19scale") && c.End != nil && !large:
-			n, large = 70000+rng.Intn(4000), true
+			n, large = 80000+rng.Intn(5000), true
 		case prop == "C10scale" || prop == "C19scale":
 			n = rng.Intn(300)
 		}
